@@ -227,4 +227,8 @@ def main(which, seed):
     if which and which.startswith('mutants'):
         only = which.split(':', 1)[1] if ':' in which else None
         return mutants(only)
+    if which and which.startswith('benign'):
+        # property-preserving variants of the code: every listed check must stay quiet (no false alarms)
+        only = which.split(':', 1)[1] if ':' in which else None
+        return mutants(only, os.path.join(VERIF, 'mutants', 'benign.json'))
     raise K.HarnessError('selftest determinism | mutants[:name-substring]')
